@@ -118,8 +118,8 @@ package utils
 
 //@ axiom #yearBracket: forallint(a, l, pattern(civilYear(a, l)), civilYearStart(civilYear(a, l), l) <= a && a < civilYearStart(civilYear(a, l) + 1, l))
 //@ axiom #yearUnique: forallint(a, l, y, pattern(civilYearStart(y, l), civilYear(a, l)), (civilYearStart(y, l) <= a && a < civilYearStart(y + 1, l)) ==> civilYear(a, l) == y)
-// every representable time.Time has a year of magnitude below 3e11 (int64 seconds since year 1)
-//@ axiom #yearRange: forallint(a, l, pattern(civilYear(a, l)), 0 - 300000000000 <= civilYear(a, l) && civilYear(a, l) <= 300000000000)
+// every representable time.Time (|unix ns| <= 9.3e27: int64 seconds since year 1) has a year of magnitude below 3e11
+//@ axiom #yearRange: forallint(a, l, pattern(civilYear(a, l)), (0 - 9300000000000000000000000000 <= a && a <= 9300000000000000000000000000) ==> (0 - 300000000000 <= civilYear(a, l) && civilYear(a, l) <= 300000000000))
 // A-TZ (fixed-offset zone, or a zone whose offset is the same on consecutive 1 Januaries): a year is 365 or 366 days long.
 //@ axiom #yearLen: forallint(y, l, pattern(civilYearStart(y, l)), civilYearStart(y + 1, l) - civilYearStart(y, l) == 365*86400000000000 || civilYearStart(y + 1, l) - civilYearStart(y, l) == 366*86400000000000)
 // A-FIXED (fixed-offset zone): civil days are 86400 s long.
